@@ -60,7 +60,7 @@ for (const n of ["drawCell","clearScreen","show","showCursor","setCursorStyle","
   globalThis[n]=function(...a){ rec(...a); return real.apply(this,a) };
 }
 // a fresh page, as after a reload: 80x24 blanks, no cursor
-globalThis.__reload=function(){ __real_showCursor(-1,-1); __real_setCursorStyle("cursor-blinking-block",""); __real_resize(80,24); __term.style=new (__term.style.constructor)(); __real_show() };
+globalThis.__reload=function(){ globalThis.cx=-1; globalThis.cy=-1; globalThis.cursorClass="cursor-blinking-block"; globalThis.cursorColor=""; __real_resize(80,24); __term.style=new (__term.style.constructor)(); __real_show() };
 })()`
 
 var realPage bool
@@ -297,4 +297,90 @@ func pageInputs() {
 	term.Call("dispatch", "blur", ev(nil))
 	check("focus and blur", []ri.Ev{{Kind: "focus", Flag: true}, {Kind: "focus", Flag: false}})
 	s.DisableFocus()
+}
+
+// pageCursor sequences: the cursor survives any order of ShowCursor / HideCursor / SetSize /
+// Show: no call into the page throws, and after a Show exactly the requested cell (if it is
+// on the screen) carries the cursor class.
+func pageCursorSequences() {
+	if !realPage || *hc.Shard != 1%*hc.NShards {
+		return
+	}
+	type cop struct {
+		name string
+		do   func(s tcell.Screen)
+	}
+	var cx, cy = -1, -1
+	var sw, sh = 4, 2
+	ops := []cop{
+		{"ShowCursor(3,1)", func(s tcell.Screen) { s.ShowCursor(3, 1); cx, cy = 3, 1 }},
+		{"ShowCursor(0,0)", func(s tcell.Screen) { s.ShowCursor(0, 0); cx, cy = 0, 0 }},
+		{"HideCursor", func(s tcell.Screen) { s.HideCursor(); cx, cy = -1, -1 }},
+		{"SetSize(2,1)", func(s tcell.Screen) { s.SetSize(2, 1); sw, sh = 2, 1 }},
+		{"SetSize(4,2)", func(s tcell.Screen) { s.SetSize(4, 2); sw, sh = 4, 2 }},
+		{"SetContent(0,0,'x',bold)", func(s tcell.Screen) { s.SetContent(0, 0, 'x', nil, tcell.StyleDefault.Bold(true)) }},
+		{"Show", func(s tcell.Screen) { s.Show() }},
+	}
+	var seqs [][]int
+	var rec func(cur []int)
+	rec = func(cur []int) {
+		if len(cur) > 0 {
+			seqs = append(seqs, append([]int(nil), cur...))
+		}
+		if len(cur) == 4 {
+			return
+		}
+		for i := range ops {
+			rec(append(cur, i))
+		}
+	}
+	rec(nil)
+	for _, sq := range seqs {
+		w.R.Evaluations++
+		w.AddDistinct(1)
+		s := newScreen(4, 2)
+		cx, cy, sw, sh = -1, -1, 4, 2
+		var names []string
+		failed := false
+		for _, i := range sq {
+			names = append(names, ops[i].name)
+			func() {
+				defer func() {
+					if r := recover(); r != nil {
+						w.Violation("wasm-page-throws:"+ops[i].name, fmt.Sprintf("sequence %v: the call into the page threw: %v", names, r), map[string]interface{}{"sequence": names})
+						failed = true
+					}
+				}()
+				ops[i].do(s)
+			}()
+			if failed {
+				break
+			}
+		}
+		if !failed {
+			func() {
+				defer func() {
+					if r := recover(); r != nil {
+						w.Violation("wasm-page-throws:Show", fmt.Sprintf("sequence %v, then Show: the call into the page threw: %v", names, r), map[string]interface{}{"sequence": names})
+						failed = true
+					}
+				}()
+				s.Show()
+			}()
+		}
+		if !failed {
+			at := pageCursor(sw, sh)
+			var want [][2]int
+			if cx >= 0 && cy >= 0 && cx < sw && cy < sh {
+				want = [][2]int{{cx, cy}}
+			}
+			if fmt.Sprint(at) != fmt.Sprint(want) {
+				w.Violation("wasm-page-cursor", fmt.Sprintf("sequence %v, then Show: the cells carrying a cursor class are %v, want %v", names, at, want), map[string]interface{}{"sequence": names})
+			}
+		}
+		func() {
+			defer func() { recover() }()
+			s.Fini()
+		}()
+	}
 }
